@@ -211,6 +211,9 @@ def dba(s, c, mask=None, samples=None, use_c=False, nb_initial_samples=None, **k
         if mask is not None and not mask[idx]:
             continue
         if use_c:
+            # The C routines read the series as contiguous memory
+            c = util_numpy.verify_np_array(c)
+            seq = util_numpy.verify_np_array(seq)
             if ndim == 1:
                 m = dtw_cc.warping_path(c, seq, **kwargs)
             else:
